@@ -15,6 +15,11 @@ RULE = ("newton.jac cases (Mat64::jacobian and Matrix::<Cmplx>::jacobian_cmplx):
         "1 <= m, n <= 6 (m < n and m > n included) on dyadic data, points in [-4,4]^n, delta = 2^-k (k = 4..26, where every "
         "operation is exact) and delta = 1e-8; (b) smooth polynomial/rational maps with symbolically known derivatives; "
         "(c) degenerate shapes m = 0 / n = 0; f64 and Complex<f64>; user functions are ASTs shared with the Gallina model; "
+        "(d) special structure (specB): complex points entirely on the real axis / entirely on the imaginary axis / every coordinate on an "
+        "axis or one of 0, +-1, +-i, with general, purely real, purely imaginary and unit coefficients (function values purely real or purely "
+        "imaginary); coordinates -delta, +delta, -2 delta, 0 (perturb and restore pass through exact zero), all coordinates equal, "
+        "coordinates at the ends +-4; affine maps whose matrix is a (rectangular) identity, a permutation, all +-1 / +-i, has zero ROWS "
+        "(constant components) or a single entry; "
         "compared: shape, entries, number and SEQUENCE of call points; distinct = distinct executor line; non-trivial = m, n >= 1")
 TRUSTED = ["Coq 8.16.1 kernel + vm_compute (primitive floats)", "Rust executor /verif/harness (k_newton.rs, fnast.rs)",
            "python driver (generators, AST printers fnlib.py, symbolic-derivative oracle, comparators)",
@@ -31,7 +36,9 @@ MANIFEST = dict(
           "jacobian_entry -- entry (i,j) is the forward quotient (f_i(x+d e_j) - f_i(x))/d; jacobian_affine -- over a field the "
           "Jacobian of x -> Mx + c is the record M itself (d <> 0). The float instance of the "
           "same definition is run against the implementation (shape, entries, call sequence; bit-compared) on affine maps of every "
-          "shape 1..6 x 1..6 with dyadic data and on smooth maps, f64 and Complex; an independent oracle (exactness on dyadic affine "
+          "shape 1..6 x 1..6 with dyadic data and on smooth maps, f64 and Complex, including axis-aligned complex points and coefficients, "
+          "coordinates that perturb/restore drive through exact zero, equal coordinates and special matrices (identity, permutation, +-1, "
+          "zero rows); an independent oracle (exactness on dyadic affine "
           "data, symbolic derivatives, restore discipline) searches for a failing input."),
     note="Truncation, rounding floor and restoration drift are theorems (standard rounding model and binary64 under finiteness / no-underflow hypotheses); exactness on dyadic data is a theorem with explicit bounds; the search checks the same on the implementation.",
     technique="Coq proof over an abstract ring/field + model/implementation differential execution (vm_compute on primitive floats vs Rust executor)",
@@ -122,7 +129,7 @@ def zero_cross_coord(rng, elt, delta):
     0, -2 delta; complex: the same in the real part with a zero or non-zero imaginary part"""
     re = [-delta, -delta, delta, 0.0, -2 * delta][rng.below(5)]
     if elt == 'f64': return re
-    im = [0.0, dy(rng, -4, 4, 16), dy(rng, -4, 4, 16)][rng.below(3)]
+    im = [0.0, 0.0, dy(rng, -4, 4, 16), dy(rng, -4, 4, 16)][rng.below(4)]
     return complex(re, im)
 
 def special_matrix(rng, elt, m, n, which):
@@ -152,7 +159,7 @@ def gen_special(rng, tier):
     # (1) complex points on the axes x coefficient classes: purely real points with complex coefficients, purely imaginary points,
     # mixed axes / units; coefficients general or axis-aligned (function values then purely real / purely imaginary)
     g = rng.fork("axis")
-    for t in range(48 if q else 480):
+    for t in range(48 if q else 240):
         m, n = g.range(1, 4), g.range(1, 4)
         pcls = ['real', 'imag', 'mixed', 'real'][t % 4]
         ccls = ['general', 'imag', 'real', 'mixed'][(t // 4) % 4]
@@ -170,7 +177,7 @@ def gen_special(rng, tier):
             cases.append(mk('cplx', x, delta, es, {"kind": "smooth"}, "axis-smooth-%s-point" % pcls))
     # (2) coordinates driven through exact zero by perturb / restore; equal coordinates; coordinates at the ends +-4 and at +-1
     g = rng.fork("zero-cross")
-    for t in range(36 if q else 360):
+    for t in range(36 if q else 180):
         elt = 'f64' if t % 3 != 2 else 'cplx'
         m, n = g.range(1, 4), g.range(1, 5)
         delta = gen_delta(g, "dy")
@@ -190,7 +197,7 @@ def gen_special(rng, tier):
     # (3) special matrices: identity / permutation / +-1 (+-i) entries / constant components (zero rows) / a single entry
     g = rng.fork("special-M")
     kinds = ['eye', 'perm', 'signs', 'zero-rows', 'single']
-    for t in range(30 if q else 300):
+    for t in range(30 if q else 120):
         elt = 'f64' if t % 2 == 0 else 'cplx'
         which = kinds[t % 5]
         m, n = g.range(1, 6), g.range(1, 6)
